@@ -17,7 +17,10 @@
 EXTENDS Naturals, Sequences, TLC
 
 Lens   == 2..4
-Kinds  == {"const", "constprop", "alias", "iface", "generic", "enumconst", "tupconst"}
+Kinds  == {"const", "constprop", "alias", "iface", "generic", "enumconst", "tupconst",
+           \* a chain of constants next to a type, reached as a whole: the root is { api: typeof <namespace import of a barrel that
+           \* re-exports the type and the constants by name>; u: <the type, through the same barrel> }
+           "nsvalue"}
 Splits == {"single", "each", "pairs", "firstonly"}     \* each: link i in m<i>.ts; pairs: two links per file; firstonly: only link 0 is moved out
 Styles == {"named", "ns", "renamed", "hub"}            \* how a link reaches the previous one across a file boundary
 
@@ -26,10 +29,11 @@ cvars == <<len, kind, split, style>>
 
 \* beff declares `interface I extends NS.J` unsupported syntax ("Extends should be an identifier", a located diagnostic, C04):
 \* the namespace style is not applied to interface chains
-Declined(k, st) == k = "iface" /\ st = "ns"
+Declined(k, st) == (k = "iface" /\ st = "ns") \/ (k = "nsvalue" /\ st \notin {"hub", "none"})
 CInit == /\ len \in Lens /\ kind \in Kinds /\ split \in Splits
          /\ style \in (IF split = "single" THEN {"none"} ELSE Styles)
          /\ ~Declined(kind, style)
+         /\ ~(kind = "nsvalue" /\ split = "firstonly")      \* (every constant lives outside entry.ts, so the barrel exports all of them)
 CSpec == CInit /\ [][UNCHANGED cvars]_cvars
 
 \* the file of link i (0-based) under a split; "entry" holds the root type T
